@@ -89,14 +89,19 @@ def lookalike(s: Stream, kind: str, size: int):
     return None
 
 
-def blob(seed, name: str, size: int) -> bytes:
+def blob(seed, name: str, size: int, envelope_ok: bool = False) -> bytes:
     """Unique content per (run, name): attributable wherever it turns up.  A share of the blobs carries byte
     patterns that lossy handling trips over (CR LF, trailing newline / NUL / 0xFF / spaces, leading whitespace);
     another share looks like something else altogether (`lookalike`)."""
     s = Stream(seed, "blob", name)
     b = bytearray(s.bytes(size))
     if size >= 16 and s.below(7) == 0:
-        la = lookalike(s, s.choice(LOOKALIKES), size)
+        kind = s.choice(LOOKALIKES)
+        if kind == "envelope" and not envelope_ok:
+            # a payload that *is* an envelope is a dependency to every command that walks hierarchies (recursive signing,
+            # cache extraction): only machines whose model knows that (M-pipeline) ask for it
+            kind = "bstr_wrapped"
+        la = lookalike(s, kind, size)
         if la is not None and len(la) == size:
             return la
     if size >= 12:
